@@ -84,11 +84,11 @@ struct Engine : MemView {
         size_t rx_pos = 0;
         bytes out;
         int rx_mode = 0; // 0 ready, 1 stall, 2 pattern
-        long rx_stall = 0;
+        long rx_stall = 0, rx_skip = 0;
         Rng rx_rng;
         int rx_p = 0, rx_burst = 1, rx_left = 0;
         int tx_mode = 0;
-        long tx_stall = 0;
+        long tx_stall = 0, tx_skip = 0;
         int tx_code = 0;
         Rng tx_rng;
         int tx_p = 0, tx_burst = 1, tx_left = 0;
@@ -332,11 +332,14 @@ static int io_read(char *ch)
         e->yield_point();
         cb_check_lock("io read");
         bool ready = true;
+        bool have0 = e->rx_pos < e->rx.size();
         if (e->force_rx_refuse)
                 ready = false;
-        else if (!e->opts.eager) {
+        else if (!e->opts.eager && have0) { // readiness only matters (and is only consumed) when a byte is waiting
                 if (e->rx_mode == 1) {
-                        if (e->rx_stall > 0) {
+                        if (e->rx_skip > 0) {
+                                e->rx_skip--;
+                        } else if (e->rx_stall > 0) {
                                 e->rx_stall--;
                                 ready = false;
                         } else
@@ -385,7 +388,9 @@ static int io_write(char ch)
         int code = 0;
         if (!e->opts.eager) {
                 if (e->tx_mode == 1) {
-                        if (e->tx_stall > 0) {
+                        if (e->tx_skip > 0) {
+                                e->tx_skip--;
+                        } else if (e->tx_stall > 0) {
                                 e->tx_stall--;
                                 ok = false;
                                 code = e->tx_code;
@@ -1444,6 +1449,7 @@ void Engine::exec(const Op &o)
         case OP_RX_STALL:
                 rx_mode = 1;
                 rx_stall = (long)o.a;
+                rx_skip = (long)o.b;
                 break;
         case OP_RX_PAT:
                 rx_mode = 2;
@@ -1458,6 +1464,7 @@ void Engine::exec(const Op &o)
         case OP_TX_REFUSE:
                 tx_mode = 1;
                 tx_stall = (long)o.a;
+                tx_skip = (long)o.c;
                 tx_code = (int)o.b == 1 ? 0 : (int)o.b;
                 break;
         case OP_TX_PAT:
